@@ -22,7 +22,6 @@ import itertools
 import os
 import random
 import sys
-import time
 
 sys.path.insert(0, os.path.dirname(os.path.abspath(__file__)))
 import _pool_util as PU  # noqa: E402
